@@ -306,6 +306,13 @@ class CheckMarkers(FuncRule):
         'random': 55,
         'time': 56,
     })
+    # other names of the same marker
+    aliases = MappingProxyType({
+        'print': 'stdout',
+        'socket': 'network',
+        'input': 'stdin',
+        'nonlocal': 'global',
+    })
 
     def __call__(self, func: Func, stubs: StubsManager | None = None) -> Iterator[Error]:
         for contract in func.contracts:
@@ -343,15 +350,16 @@ class CheckMarkers(FuncRule):
 
         for token in get_markers(body=func.body, stubs=stubs):
             assert token.marker
-            has_marker = getattr(has, f'has_{token.marker}', None)
+            marker = cls.aliases.get(token.marker, token.marker)
+            has_marker = getattr(has, f'has_{marker}', None)
             if has_marker is None:
-                has_marker = token.marker in has.markers
+                has_marker = marker in has.markers
             if has_marker:
                 continue
             yield Error(
-                code=cls.codes.get(token.marker, cls.code),
+                code=cls.codes.get(marker, cls.code),
                 text=cls.message,
-                value=token.marker,
+                value=marker,
                 row=token.line,
                 col=token.col,
             )
